@@ -17,13 +17,7 @@ TRUSTED_BASE = [
     'hook H0 (quic stub under build tag verif) replaces the QUIC transport in verif builds',
 ]
 
-PROPS = {
-    'C12': dict(
-        cmd='c12', n_quick=3000, n_thorough=40000,
-        explanation='theorems over Model/Xfer.v for all pipes/payloads; correspondence of the model with xfer.XferPipe, md5 and test filters on generated pipes',
-        assumptions=[
-            'gzip (compress/gzip) is a library: its inversion is a hypothesis of C12_pipe_roundtrip (inverts f), exercised on every generated case',
-            'MD5 collision resistance is not provable; C12_md5_single_byte_corruption states the exact residual (digest collision on the content)',
-        ],
-    ),
-}
+import glob as _glob, json as _json, os as _os
+PROPS = {}
+for _p in sorted(_glob.glob(_os.path.join(_os.path.dirname(_os.path.dirname(_os.path.abspath(__file__))), 'props', 'C*.json'))):
+    PROPS[_os.path.basename(_p)[:-5]] = _json.load(open(_p))
